@@ -63,6 +63,19 @@ pub(super) fn insert_reserved_times_as_breaks(
             let break_time = reserved_time.duration as i64;
             let break_cost = break_time as Float * route.actor.vehicle.costs.per_service_time;
 
+            // NOTE a part of the break which is taken while the vehicle waits for a time window does not prolong
+            // the tour: it is already counted (and paid) as waiting time
+            let waiting_overlap = route
+                .tour
+                .all_activities()
+                .filter(|activity| activity.schedule.arrival < activity.place.time.start)
+                .filter_map(|activity| {
+                    TimeWindow::new(activity.schedule.arrival, activity.place.time.start).overlapping(&reserved_tw)
+                })
+                .map(|tw| tw.duration())
+                .sum::<Float>()
+                .min(reserved_time.duration);
+
             for (stop_idx, stop) in tour.stops.iter_mut().enumerate() {
                 let stop_tw =
                     TimeWindow::new(parse_time(&stop.schedule().arrival), parse_time(&stop.schedule().departure));
@@ -71,7 +84,7 @@ pub(super) fn insert_reserved_times_as_breaks(
                     insert_break(
                         (stop, stop_tw, stop_idx),
                         (break_time, break_cost, break_info.clone()),
-                        &reserved_tw,
+                        (&reserved_tw, waiting_overlap),
                         &mut tour.statistic,
                     )
                 }
@@ -85,11 +98,12 @@ pub(super) fn insert_reserved_times_as_breaks(
 fn insert_break(
     stop_data: (&mut Stop, TimeWindow, usize),
     break_data: (i64, Cost, Option<BreakInsertion>),
-    reserved_tw: &TimeWindow,
+    reserved_data: (&TimeWindow, Float),
     statistic: &mut Statistic,
 ) {
     let (stop, stop_tw, stop_idx) = stop_data;
     let (break_time, break_cost, break_insertion) = break_data;
+    let (reserved_tw, waiting_overlap) = reserved_data;
     let break_idx = stop
         .activities()
         .iter()
@@ -106,7 +120,17 @@ fn insert_break(
 
     let activities = match stop {
         Stop::Point(point) => {
-            statistic.cost += break_cost;
+            let is_moved_from_transit = matches!(
+                &break_insertion,
+                Some(BreakInsertion::TransitBreakMoved { leg_idx, .. }) if *leg_idx == stop_idx
+            );
+            if is_moved_from_transit || break_time == 0 {
+                statistic.cost += break_cost;
+            } else {
+                let cost_per_time = break_cost / break_time as Float;
+                statistic.cost += break_cost - waiting_overlap * cost_per_time;
+                statistic.times.waiting -= waiting_overlap as i64;
+            }
             &mut point.activities
         }
         Stop::Transit(transit) => {
